@@ -292,7 +292,7 @@ def run(spec, ctx):
             if idx % 33 == 0:
                 ctx.sample(case)
         except Exception as exc:
-            ctx.error(f"case {idx}", exc)
+            ctx.raised("c09.no_exception", f"case {idx}", exc)
         finally:
             writer.CHUNK_SIZE_BYTES = 1024 ** 2
             shutil.rmtree(tmp, ignore_errors=True)
